@@ -1,6 +1,6 @@
 CONSTANTS
-  Cap = 2
-  MaxLen = 8
+  Cap = 3
+  MaxLen = 14
   Reps = {123, 125, 91, 93, 58, 44, 34, 92, 47, 32, 10, 48, 49, 45, 43, 46, 101, 69, 116, 114, 117, 97, 108, 115, 102, 110, 98, 100, 68, 56, 99, 67, 55, 120, 31, 127, 128, 191, 194, 224, 160, 159, 237, 240, 144, 143, 244, 245, 255}
 SPECIFICATION Spec
 INVARIANT ViableInv
